@@ -1259,3 +1259,33 @@ def _(c):
             same = got.ref == want.ref if hasattr(got, 'ref') else z3.BoolVal(False)
         return z3.And(args[0] == a[0], same)
     c.site('loads-the-queued-path-with-the-queued-entry', 'self.verify_and_load', passes_both)
+
+
+def _entry_dict_body():
+    """get_file_entry_dict: the body is verified for what lookups must not do -- change anything that existed before the call
+    (C10: "nothing at all is written ... by any verification or lookup operation": the loaded entries are part of what the next
+    save writes) -- and for the exception classes that can escape (C18).  What the returned dict contains stays with the
+    bounded stand-ins; callers keep the call-site model"""
+    c = REGISTRY_[('gemato/recursiveloader.py', 'ManifestRecursiveLoader.get_file_entry_dict')]
+    c.trusted = False
+    c.props[:] = ['C01', 'C10', 'C18']
+    c.params(self=RL, path=Str, only_types=Opt(SeqT(Str)), verify_manifests=Bool)
+    c.returns(DictT(Str, EntMap))
+    c.modifies(('self', 'loaded_manifests'))
+    c.only_raises(*(GEMATO_ERRORS + ['ManifestIncompatibleEntry']))
+    c.requires('only-path-entry-types-are-asked-for',
+               lambda s: z3.Or(S.opt_none(s.only_types), z3.Not(z3.Contains(S.opt_val(s.only_types), z3.Unit(STR('TIMESTAMP'))))))
+    c.note('precondition: only_types never names TIMESTAMP (a TIMESTAMP entry has no path; the only caller in gemato passes '
+           "['IGNORE']); with it the engine finds an AttributeError at `e.path`")
+    c.loop(1, header='for (mpath, relpath, m) in self._iter_manifests_for_path(path, recursive=True)',
+           vars={'out': DictT(Str, EntMap), 'e': None, 'fullpath': None, 'dirpath': None, 'filename': None, 'dirout': None,
+                 'ret': None, 'diff': None, 'new_checksums': None},
+           inv=[('true', lambda s: z3.BoolVal(True))])
+    c.loop(2, header='for e in m.entries',
+           vars={'out': DictT(Str, EntMap), 'relpath': Str, 'fullpath': None, 'dirpath': None, 'filename': None, 'dirout': None,
+                 'ret': None, 'diff': None, 'new_checksums': None},
+           inv=[('true', lambda s: z3.BoolVal(True))])
+    c.loop(3, header='for (k, d1, d2) in diff', vars={'new_checksums': DictT(Str, Str)}, inv=[('true', lambda s: z3.BoolVal(True))])
+
+
+_entry_dict_body()
